@@ -418,6 +418,30 @@ def run(tier):
                 ck.instance("O7.pooled-roots", "%s push onto mark stack" % f.path, F.short_span(t[6]), ok=ok)
                 if not ok:
                     ck.finding("O7.pooled-roots", "O7.pooled-roots/" + f.path, F.short_span(t[6]), "`%s` pushes a slot onto the mark stack without the pooled check" % f.path)
+    # ---------------- O10 a slot leaves the pool freshly reset
+    # A pooled slot can still be written through a handle that outlived its object (`Gc::borrow_mut` does not look at `pooled`).  Whatever was
+    # written there must not become the contents - or the links, which the collector would trace - of the next object allocated in the slot:
+    # every `pooled.set(false)` is dominated by a `Reset::reset` of the box's data.
+    ck.rule("O10.unpooled-slots-are-reset", "every `pooled.set(false)` in gc.rs is dominated by a Reset::reset call in the same function (a reused slot starts from defaults)", floor=1)
+    n10 = 0
+    for f in gcf:
+        if f.derived:
+            continue
+        resets = [bi for bi, t in f.calls() if (t[1].get("d") or "").endswith("Reset::reset") or (t[1].get("u") or "").endswith("Reset::reset")]
+        for bi, t in f.calls():
+            if not (t[1].get("d") or "").endswith("Cell::<T>::set") or len(t[2]) < 2 or t[2][0][0] not in ("c", "m") or M.const_int(t[2][1]) != 0:
+                continue
+            fl = E.field_of_ref(f, t[2][0][1][0])
+            if not fl or fl[2] != "pooled":
+                continue
+            n10 += 1
+            ok = any(f.dominates(rb, bi) for rb in resets)
+            ck.instance("O10.unpooled-slots-are-reset", "%s: pooled.set(false)" % f.path, F.short_span(t[6]), ok=ok)
+            if not ok:
+                ck.finding("O10.unpooled-slots-are-reset", "O10.unpooled-slots-are-reset/" + f.path, F.short_span(t[6]),
+                           "`%s` takes a slot out of the pool without resetting its contents: what a stale handle wrote into the pooled slot (a payload, a link that the "
+                           "collector will trace) becomes the state of the next object allocated there" % f.path)
+    ck.anchor(n10 >= 1, "sites that take a slot out of the pool (pooled.set(false)) in gc.rs (found %d)" % n10)
     # ---------------- O9 recycled root buffers are empty
     import poolclean
     ck.rule("O9.pool-buffers-empty", "a root buffer entering Space.guard_pool (push / insert / swap / replace) was cleared first; create_guard trusts pooled buffers", floor=1)
